@@ -1,5 +1,7 @@
 import SSModel.Extract
 import SSLemmas.Extract
+import SSModel.Origin
+import SSModel.Gen.Consts
 /-!
 C16 — `Frame.origin` and `extract_outermost` keep their documented contracts.
 Property theorems only; model `SSModel/Extract.lean` (`run`, `runFirst`), lemmas `SSLemmas/Extract.lean`.
@@ -88,3 +90,28 @@ def genEnv : Env :=
 
 example : extract genEnv 20 1 = .done [⟨⟨101, some 1⟩, false⟩, ⟨⟨102, some 2⟩, false⟩] .none [] := by decide +kernel
 example : extractOutermost genEnv 20 2 = .frame ⟨⟨102, some 2⟩, false⟩ := by decide +kernel
+
+
+/-! ### which object becomes the origin (`better_origin`) -/
+
+/-- What the model takes from the source, re-read on every run: the generator-like types and the condition of `better_origin`. -/
+theorem C16_better_origin_source :
+    SS.Gen.betterOriginTypes = "(types.CoroutineType, types.GeneratorType, types.AsyncGeneratorType)"
+    ∧ SS.Gen.betterOriginCond = "isinstance(candidate, typelist) or not isinstance(fallback, typelist)" := by decide
+
+/-- **C16_better_origin**: a coroutine, generator or async generator that is being looked into always becomes the origin,
+whatever was remembered before (so each frame obtained by looking inside one gets that object, not the one that awaits it);
+anything else replaces only a fallback that is not generator-like; an object that cannot be weakly referenced never does. -/
+theorem C16_better_origin (cand fb : SS.Origin.Kind) :
+    (cand.genlike = true → SS.Origin.betterOrigin cand fb = .candidate)
+    ∧ (cand.weakrefable = false → SS.Origin.betterOrigin cand fb = .fallback)
+    ∧ (cand.genlike = false → fb.genlike = true → SS.Origin.betterOrigin cand fb = .fallback) := by
+  cases cand <;> cases fb <;> simp [SS.Origin.betterOrigin, SS.Origin.Kind.genlike, SS.Origin.Kind.weakrefable]
+
+/-- The two slips that seeded changes made here (a kind dropped from the list; `or` → `and`) each lose the origin of an async
+generator (resp. coroutine) reached through a coroutine. -/
+theorem C16_better_origin_slips :
+    SS.Origin.betterOriginNoAgen .asyncGenerator .coroutine = .fallback
+    ∧ SS.Origin.betterOriginAnd .coroutine .coroutine = .fallback
+    ∧ SS.Origin.betterOrigin .asyncGenerator .coroutine = .candidate
+    ∧ SS.Origin.betterOrigin .coroutine .coroutine = .candidate := by decide
